@@ -100,3 +100,22 @@ pub fn write_s2(dir: &Path) -> PathBuf {
     write_layout(&p, &m);
     p
 }
+
+/// a layout made from a list of values: they are bound, in order, to the Normal and then the AltGr entries of the main-block keys.
+/// Returns the path and, per value, the (key code, modifier byte) that types it.
+pub fn write_values(dir: &Path, name: &str, values: &[String]) -> (PathBuf, Vec<(u16, u8)>) {
+    let mut m = BTreeMap::new();
+    let mut how = vec![];
+    let mut slots: Vec<(String, u16, u8)> = vec![];
+    for plane in ["Normal", "AltGr"] {
+        for (vc, code, _) in KEYS {
+            if vc.starts_with("VC_KP_") { continue; }
+            if let Some((n, num)) = entry_name(vc) { if !num { slots.push((format!("Key_{}_{}", n, plane), *code, if plane == "AltGr" { 2 } else { 0 })); } }
+        }
+    }
+    assert!(values.len() <= slots.len(), "too many values for one layout: {} > {}", values.len(), slots.len());
+    for (v, (n, code, md)) in values.iter().zip(slots.iter()) { m.insert(n.clone(), v.clone()); how.push((*code, *md)); }
+    let p = dir.join(format!("{}-layout.json", name));
+    write_layout(&p, &m);
+    (p, how)
+}
